@@ -157,6 +157,12 @@ def run_obligation(pkg, fn, hook=None, max_paths=256, allow_size_thresholds=Fals
         return dict(status="error", detail="recursion limit in analysed code", paths=0, stats={}, wall=time.time() - t0)
     stats = {}
     fails, thin_fails = [], []
+    harness = [p for p in paths if p.raised is not None and str(getattr(p.raised, "where", "")).startswith("?:?")]
+    if harness:
+        # an exception raised by an operation of the harness itself (no function of the analysed package on the stack) says nothing
+        # about the code: undecided
+        return dict(status="error", detail="the harness could not evaluate its reference on the path [%s]: %s" % (
+            " and ".join(harness[0].conds)[:300], harness[0].raised), paths=len(paths), stats={}, wall=time.time() - t0)
     for p in paths:
         cond = " and ".join(p.conds) if p.conds else "always"
         msg = None
